@@ -1,4 +1,7 @@
+import BppModel.Drive.C05
 import BppModel.Drive.C20
+import BppModel.Generated.LUConstants
+import BppModel.LU
 import BppModel.Prelude.Scalar
 import BppModel.Proto
 import BppModel.Range
